@@ -1,0 +1,47 @@
+//go:build verif
+
+package kv
+
+// VerifSeams are the file system seams of the kv store (verification harness only).
+type VerifSeams struct {
+	EncodeToml func(fileName string, v interface{}) error
+	ListDir    func(path string) ([]string, error)
+	MkDir      func(path string) error
+	Remove     func(name string) error
+	RemoveDir  func(path string) error
+}
+
+// VerifGetSeams returns the current seams.
+func VerifGetSeams() VerifSeams {
+	return VerifSeams{
+		EncodeToml: encodeTomlFunc,
+		ListDir:    listDirFunc,
+		MkDir:      mkDirFunc,
+		Remove:     removeFunc,
+		RemoveDir:  removeDirFunc,
+	}
+}
+
+// VerifSetSeams replaces the seams.
+func VerifSetSeams(s VerifSeams) {
+	encodeTomlFunc = s.EncodeToml
+	listDirFunc = s.ListDir
+	mkDirFunc = s.MkDir
+	removeFunc = s.Remove
+	removeDirFunc = s.RemoveDir
+}
+
+// VerifCompactStore runs the store level compact check(compact/rollup jobs and reader cache cleanup) on demand.
+func VerifCompactStore(s Store) {
+	s.compact()
+}
+
+// VerifWaitFamily waits for the background jobs(flush/compact/rollup) of the family.
+func VerifWaitFamily(f Family) {
+	f.close()
+}
+
+// VerifDeleteObsoleteFiles runs the obsolete file cleanup of the family on demand.
+func VerifDeleteObsoleteFiles(f Family) {
+	f.deleteObsoleteFiles()
+}
